@@ -188,7 +188,8 @@ def run(ctx):
     if ctx.quick:
         models = ["MC_KCore_bu.cfg", "MC_KCore_bd.cfg", "MC_KCore_wu.cfg"]
     else:
-        models = ["MC_KCore_bu_thorough.cfg", "MC_KCore_bd_thorough.cfg", "MC_KCore_wu_thorough.cfg"]
+        models = ["MC_KCore_bu_thorough.cfg", "MC_KCore_bd_thorough.cfg", "MC_KCore_wu_thorough.cfg",
+                  "MC_KCore_wu_n5.cfg"]
     for cfg in models:
         ctx.mc("MC_KCore.tla", cfg)
     jobs = build_jobs(ctx)
